@@ -85,7 +85,7 @@ type c07Ret struct {
 }
 
 type c07Ckpt struct {
-	Present              bool
+	Present             bool
 	Epoch, LogStart, HW uint64
 }
 
@@ -123,6 +123,8 @@ type c07Chan struct {
 	// rebuild or reload per-channel append state: "reclaim" (last lease closed
 	// and re-acquired), "evict" (warm state evicted, then re-acquired), "reopen".
 	Barriers []string
+	// sinceBarrier counts validated append attempts since the last barrier.
+	sinceBarrier int
 
 	// history shape, for the non-triviality rule
 	cut, appendAfterCut, reopenAfterAppend bool
@@ -516,4 +518,3 @@ func c07Channels(n int) []*c07Chan {
 	}
 	return out
 }
-
